@@ -30,8 +30,8 @@ C.reexec_under_impl_python()
 
 CID = "C10"
 AREA = "rset"
-VO = ["props/C10.vo", "rset/RSetModel.vo", "rset/RSetSpec.vo", "rset/RSetHist.vo", "rset/RSetThm.vo", "rset/RSetHistThm.vo", "rset/RSetLit.vo", "rset/RSetLitThm.vo", "rset/RSetHeapq.vo", "rset/RSetHeapqThm.vo"]
-E_MODEL_FIRST, E_MODEL_LAST, E_SPEC, E_TAGGED, E_LITERAL, E_MODEL_PY, E_HIST_FIRST, E_HIST_LAST, E_HIST_SPEC, E_HIST_PY = 0, 1, 2, 3, 4, 5, 10, 11, 12, 13
+VO = ["props/C10.vo", "rset/RSetModel.vo", "rset/RSetSpec.vo", "rset/RSetHist.vo", "rset/RSetThm.vo", "rset/RSetHistThm.vo", "rset/RSetLit.vo", "rset/RSetLitThm.vo", "rset/RSetHeapq.vo", "rset/RSetHeapqThm.vo", "rset/RSetHist2.vo", "rset/RSetHistThm2.vo"]
+E_MODEL_FIRST, E_MODEL_LAST, E_SPEC, E_TAGGED, E_LITERAL, E_MODEL_PY, E_HIST_FIRST, E_HIST_LAST, E_HIST_SPEC, E_HIST_PY, E_MILD = 0, 1, 2, 3, 4, 5, 10, 11, 12, 13, 14
 
 BASE = dt.datetime(2000, 1, 1)
 UTC = dt.timezone.utc
@@ -98,13 +98,51 @@ def member_instants(m):
     return m["_inst"]
 
 
+class _Timeout(Exception):
+    pass
+
+
+# SIGALRM must not fire while coverage.py's tracer runs (its callback holds a lock: an exception raised
+# there deadlocks the process); the in-process coverage shard therefore does not draw C01 rules
+NO_C01 = False
+
+
+def with_timeout(fn, secs):
+    """run fn() with a wall-clock limit (SIGALRM; main thread of the worker process)"""
+    import signal
+
+    def handler(_sig, _frm):
+        raise _Timeout()
+    old = signal.signal(signal.SIGALRM, handler)
+    signal.setitimer(signal.ITIMER_REAL, secs)
+    try:
+        return fn()
+    finally:
+        signal.setitimer(signal.ITIMER_REAL, 0)
+        signal.signal(signal.SIGALRM, old)
+
+
+def list_c01(m):
+    """first 61 occurrences; the rule carries an UNTIL cap from rr_common.cap_until, which bounds the scan
+    (no timer: an asynchronous exception can leave a lock of the code under test or of coverage.py held)"""
+    import itertools as IT
+    return [to_z(d) for d in IT.islice(iter(build_member(m)), 61)]
+
+
 def gen_c01_rule(r):
     """a finite naive rule from C01's generator (harness/rr_common.py): BY-parts, wkst, until/count ...;
     rejected when it raises, is not exhausted after 60 occurrences, or is empty too often"""
-    import itertools as IT
-    import rr_common
+    if NO_C01:
+        return gen_rule(r)
+    try:
+        import rr_common          # owned by the C01 builder; this stream degrades to gen_rule without it
+    except Exception:
+        return gen_rule(r)
     for _ in range(30):
-        case = rr_common.rand_case(r)
+        try:
+            case = rr_common.rand_case(r)
+        except Exception:
+            return gen_rule(r)
         case["start"]["kind"] = "naive"
         case["start"].pop("off", None)
         case["start"]["us"] = 0
@@ -112,12 +150,17 @@ def gen_c01_rule(r):
             case["until"]["kind"] = "naive"
             case["until"].pop("off", None)
             case["until"].pop("same_tz", None)
-        if case.get("count") is None and case.get("until") is None:
-            case["count"] = r.choice([1, 3, 7, 12, 25])
+        if case.get("until") is None:
+            try:
+                case["until"] = rr_common.cap_until(case, r)      # bounds the scan, deterministic
+                case["until"]["kind"] = "naive"
+                case["until"].pop("off", None)
+                case["until"].pop("same_tz", None)
+            except Exception:
+                continue
         m = {"kind": "c01", "case": case, "cache": r.random() < 0.3}
         try:
-            it = iter(build_member(m))
-            inst = [to_z(d) for d in IT.islice(it, 61)]
+            inst = list_c01(m)
         except Exception:
             continue
         if len(inst) > 60 or (not inst and r.random() < 0.8) or inst != sorted(set(inst)):
@@ -142,8 +185,7 @@ def vary_c01(r, m):
     elif x < 0.75:
         c["count"] = r.choice([1, 2, 5])
     try:
-        import itertools as IT
-        inst = [to_z(d) for d in IT.islice(iter(build_member(m2)), 61)]
+        inst = list_c01(m2)
         if len(inst) > 60:
             return dict(clean(m))
         m2["_inst"] = inst
@@ -499,7 +541,7 @@ def gen_history(r, stale):
     ops = []
     members = {"rr": [], "rd": [], "exr": [], "exd": []}
     n_iters = n_stale = 0
-    rule_pool = [gen_rule(r) for _ in range(r.randrange(1, 4))]
+    rule_pool = [gen_c01_rule(r) if r.random() < 0.2 else gen_rule(r) for _ in range(r.randrange(1, 4))]
     for i, m in enumerate(rule_pool):
         if r.random() < 0.3:
             m["share"] = i
@@ -660,6 +702,10 @@ def m_stale_iterator(payload):
     ops = inp.get("ops")
     at = payload.get("first_wrong_op")
     if not isinstance(ops, list) or at is None:
+        return False
+    if payload.get("mild_in_model") is not False:
+        # C10_rset_history_mild: while stale iterators leave the shared attributes alone nothing can go
+        # wrong; the finding is a stale iterator that changes them (reaches the end of its generator)
         return False
     if payload.get("model_agrees_with_impl") is not True:
         # the faithful model of the unfixed code reproduces F-C10-stale exactly; a wrong observation
@@ -855,7 +901,9 @@ def check_history(o, h, kind, st, viol, samples, bump, shrink=True):
     d = first_spec_diff(im, sp)
     if d is not None:
         st["spec_diff"] += 1
-        pre = {"input": hist_json(h), "first_wrong_op": d, "model_agrees_with_impl": im == mf}
+        mild = o.call(E_MILD, [1 if h["cached"] else 0] + enc_ops(ops)) == [1]
+        bump("%s: spec-diff with mild=%s" % (kind, mild))
+        pre = {"input": hist_json(h), "first_wrong_op": d, "model_agrees_with_impl": im == mf, "mild_in_model": mild}
         hh = shrink_history(o, h) if (shrink and not m_stale_iterator(pre)) else h
         im2, mf2, _ml2, sp2 = eval_history(o, hh)
         d2 = first_spec_diff(im2, sp2)
@@ -865,7 +913,8 @@ def check_history(o, h, kind, st, viol, samples, bump, shrink=True):
                       "input": hist_json(hh), "first_wrong_op": d2, "op": hist_json(hh)["ops"][d2] if d2 < len(hh["ops"]) else None,
                       "impl": im2[d2] if d2 < len(im2) else None, "spec": sp2[d2] if d2 < len(sp2) else None,
                       "model": mf2[d2] if d2 < len(mf2) else None,
-                      "model_agrees_with_impl": im2 == mf2}, True))
+                      "model_agrees_with_impl": im2 == mf2,
+                      "mild_in_model": o.call(E_MILD, [1 if hh["cached"] else 0] + enc_ops(hh["ops"])) == [1]}, True))
     if im != mf:
         st["model_diff"] += 1
         k = next((i for i, (x, y) in enumerate(zip(im, mf)) if x != y), None)
@@ -873,6 +922,11 @@ def check_history(o, h, kind, st, viol, samples, bump, shrink=True):
             viol.append(({"kind": "correspondence: history model differs from the implementation",
                           "input": hist_json(h), "first_wrong_op": k,
                           "impl": im[k] if k is not None else im, "model": mf[k] if k is not None else mf}, False))
+    if kind == "stale":
+        si = stale_use_index(ops)
+        if si is not None:
+            bump("stale: iterator advanced across a mutator, mild=%s" %
+                 (o.call(E_MILD, [1 if h["cached"] else 0] + enc_ops(ops)) == [1]))
     if len(samples) < 2 and len(ops) >= 6:
         samples.append({"stream": kind, "input": hist_json(h), "impl": im, "model": mf, "spec": sp})
 
@@ -887,12 +941,15 @@ def measure_anchor_coverage(fn):
     except Exception:
         return fn(), {"available": False}
     path = os.path.join(C.SRC, "dateutil", "rrule.py")
+    global NO_C01
     cov = coverage.Coverage(branch=True, include=[path], data_file=None)
+    NO_C01 = True
     cov.start()
     try:
         res = fn()
     finally:
         cov.stop()
+        NO_C01 = False
     try:
         an = cov._analyze(path)
         inr = lambda n: any(a <= n <= b for a, b in ANCHOR_RANGES)
@@ -1013,10 +1070,10 @@ def main():
         for k, v in st["hist"].items():
             total["hist"][k] = total["hist"].get(k, 0) + v
         if tier == "quick":
-            plan = {"sets": (4, 700), "c01sets": (4, 150), "tagged": (1, 1500), "hist": (4, 750), "stale": (2, 300)}
+            plan = {"sets": (4, 700), "c01sets": (4, 60), "tagged": (1, 1500), "hist": (4, 750), "stale": (2, 300)}
             procs = 4
         else:
-            plan = {"sets": (16, 15000), "c01sets": (16, 2500), "tagged": (4, 10000), "hist": (32, 15000), "stale": (8, 6000)}
+            plan = {"sets": (16, 15000), "c01sets": (16, 600), "tagged": (4, 10000), "hist": (32, 15000), "stale": (8, 6000)}
             procs = min(16, os.cpu_count() or 4)
         jobs = [("small", "0", 0, tier)]
         jobs += [("smallhist", str(k), 4 if tier == "quick" else 5, tier) for k in range(len(SMALL_ALPHABET))]
@@ -1097,7 +1154,9 @@ def main():
         "differential_only": ["naive/aware TypeError class (tag_error of RSetModel.v is compared with the code, "
                               "no theorem)", "lock handling of _iter_cached (not modelled; single-threaded histories)"],
         "known_findings_hit": verdict.known_hits,
-        "guarded_theorems": {"C10_rset_history": "fresh_history ops = true (no next() on an iterator obtained "
+        "guarded_theorems": {"C10_rset_history_mild": "mild_history: stale iterators may be advanced as long as they do not "
+                                                      "change _cache_complete/_cache_gen/_len (sharper than fresh_history)",
+                             "C10_rset_history": "fresh_history ops = true (no next() on an iterator obtained "
                                                  "before a later mutator); complement = finding F-C10-stale",
                              "C10_rset_history_heapq": "same guard",
                              "C10_rset_iter_correct and all generator theorems": "members non-decreasing (Forall nondec); "
